@@ -43,6 +43,9 @@
 (*                      store request is sent                                                              *)
 (*  The exact contents of nodes_todo (top-K rule, puncture bookkeeping), the order of requests and the     *)
 (*  order of reported values form the implementation layer; they are bound by replay (driver g02.py).      *)
+(*  Not demanded (intent not stated): that find_nodes leaves out nodes that never answered; that the       *)
+(*  caching store is not also kept in the finder's own storage; what happens to the failure counters of    *)
+(*  table entries when the answering node was contacted through an object taken from another answer.       *)
 EXTENDS Integers, Sequences, FiniteSets, TLC
 
 CONSTANTS N,                    \* nodes 1..N
@@ -329,16 +332,4 @@ InvResponses == /\ \A i \in 1..Len(responses) : responses[i].n \in tried
 
 Terminates == (phase = "run") ~> (phase = "done")
 
-(* ---- answer universes for exhaustive configurations (cfg: Worlds <- WorldsNodes2 etc.) *)
-SeqsUpTo(S, n) == UNION {[1..k -> S] : k \in 0..n}
-Distinct(s) == \A i, j \in 1..Len(s) : i # j => s[i] # s[j]
-NodeLists(n, len) == {s \in SeqsUpTo(Node \ {n}, len) : Distinct(s)}
-AnsNodes2 == [n \in Node |-> {[vals |-> <<>>, nodes |-> s] : s \in NodeLists(n, 2)}
-                               \cup {[vals |-> <<1>>, nodes |-> <<>>], [vals |-> <<2, 1>>, nodes |-> <<>>]}]
-AnsNodes3 == [n \in Node |-> {[vals |-> <<>>, nodes |-> s] : s \in NodeLists(n, 3)}
-                               \cup {[vals |-> <<1>>, nodes |-> <<>>], [vals |-> <<2, 1>>, nodes |-> <<>>]}]
-AllRTs == {S \in SUBSET Node : S # {}}
-SmallRTs == {S \in SUBSET Node : S # {} /\ Cardinality(S) <= 2}
-WorldsNodes2 == <<[ans |-> AnsNodes2, rts |-> SmallRTs]>>
-WorldsNodes3 == <<[ans |-> AnsNodes3, rts |-> AllRTs]>>
 =============================================================================
